@@ -848,6 +848,18 @@ def rule_c17(an, res):
                     if okt:
                         # the pre-loop read has to be inside the critical section and after nothing else changed the structure:
                         okt = not [e for e in top.effects if e.kind in ('AUX_ADD', 'AUX_DEL', 'BIND', 'UNBIND')]
+                else:
+                    # std::distance(ttl.begin(), ttl.upper_bound(now)) taken before the sweep: the number of entries whose deadline is
+                    # <= now, which is what the loop (R-CLEAN-LOOP: exactly the expired prefix) removes
+                    d = r[2] if isinstance(r, tuple) and r and r[0] == 'cast' and len(r) > 2 else r
+                    if isinstance(d, tuple) and len(d) > 2 and d[0] == 'fncall' and d[1] == 'distance' and len(d[2]) == 2:
+                        a, b2 = d[2]
+                        a = resolve_local(top, a, None) if isinstance(a, tuple) and a[:1] in (('lv',), ('var',)) else a
+                        b2 = resolve_local(top, b2, None) if isinstance(b2, tuple) and b2[:1] in (('lv',), ('var',)) else b2
+                        clocks = clock_syms(top)
+                        okt = (is_begin_of(a, aux) and isinstance(b2, tuple) and len(b2) > 3 and b2[0] == 'q' and b2[1] == 'upper_bound'
+                               and b2[2] == THIS(aux) and len(b2[3]) == 1 and b2[3][0] in clocks and len(clocks) == 1)
+                        how = 'distance(begin, upper_bound(now))'
                 res.ob('R-CLEAN-TALLY', ok=okt)
                 res.sample(dict(container=cm.name, method=m.key(), returns=show(r) if r is not None else None, tally=how), cap=8)
                 if not okt:
